@@ -1,7 +1,6 @@
 use crate::vcore::Tier;
 
 pub mod c01;
-pub mod dbg;
 pub mod c02;
 pub mod c03;
 pub mod c04;
@@ -24,10 +23,6 @@ pub mod c20;
 
 pub fn dispatch(prop: &str, tier: Tier, seed: u64, replay: Option<String>) -> i32 {
     match prop {
-        "DBG" => {
-            dbg::run();
-            0
-        }
         "C01" => c01::run(tier, seed, replay),
         "C02" => c02::run(tier, seed, replay),
         "C03" => c03::run(tier, seed, replay),
